@@ -69,7 +69,7 @@ def oracle(case):
 
 
 def check(rep, tier, seed):
-    n_scripts, n_ops = (16, 700) if tier == "quick" else (64, 16000)
+    n_scripts, n_ops = (16, 700) if tier == "quick" else (256, 16000)
     cases = []
     for i in range(n_scripts):
         r = rng_for(seed, "c10/%d" % i)
